@@ -90,6 +90,19 @@ add(
     "3/C13",
 )
 
+add(
+    "C10",
+    "History part: on the real Optimizer with parameter-dependent symbolic matrices, the penalty at x0, x1, (an "
+    "evaluation that raises), x0 again is proved term-for-term equal to the penalty of a fresh Optimizer evaluated only "
+    "at that point (functional linear-solver stub: any state carried across evaluations yields a different term). "
+    "Input part: snapshots of the caller's parameters (value, bounds, flags, expression, standard error), data arrays "
+    "and model before/after optimize()+create_result() are identical, and two optimisations with the same optimiser "
+    "schedule give identical result terms.",
+    COMMON_NOTE + "Thread schedules of the compiled kernels and process freshness are NOT decided by this check "
+    "(the encoding runs sequential Python semantics); least_squares is the adversarial stub.",
+    "3/C10",
+)
+
 ALL = [f"C{i:02d}" for i in range(1, 21)]
 
 
